@@ -618,7 +618,8 @@ func (fc *FCtx) callByContract(c *FuncContract, fn *types.Func, sig *types.Signa
 		}
 	}
 	pn := paramNames(sig, c)
-	if sig.Variadic() {
+	if sig.Variadic() && !e.Ellipsis.IsValid() {
+		// f(xs...) passes the slice itself, which is what the variadic parameter is inside the callee
 		oos("variadic call by contract to %s", fn.FullName())
 	}
 	if len(e.Args) != len(pn) {
